@@ -37,7 +37,9 @@ CHECK = {
         {"name": "cover", "driver": "atlk", "args": ["-mode", "cover"],
          "env": {"ONLYCARE": "true", "VALIDATE": "true"},
          "gen": [("ATRollback_MC", "ATRollback_Gen_C01.cfg")],
-         "trace": ("ATLocks_Trace", "ATLocks_Trace.cfg"), "shards": 4, "deterministic": True},
+         "trace": ("ATLocks_Trace", "ATLocks_Trace.cfg"), "shards": 4, "deterministic": True,
+         # the key-text trace ("canon") aggregates over all the scenarios of a shard: reproduce with the whole leg
+         "repro_full": True},
         {"name": "race", "driver": "atlk", "args": ["-mode", "race"],
          "gen_quick": [("ATLocks_Race_MC", "ATLocks_Race_Gen.cfg")], "gen_thorough": [("ATLocks_Race_MC", "ATLocks_Race_GenT.cfg")],
          "trace": ("ATLocks_Race_Trace", "ATLocks_Race_Trace.cfg"), "shards": 8, "shards_thorough": 16},
